@@ -1,4 +1,4 @@
-From AV Require Import Lib.Base Generated.TimeoutsGen Generated.PoolGen Model.Timeouts.
+From AV Require Import Lib.Base Generated.TimeoutsGen Model.Timeouts.
 Require Extraction.
 Require Import ExtrOcamlBasic.
 Extraction "model.ml" keep init step apply run count_writers deadline live next_timer
